@@ -389,31 +389,31 @@ def _census(tier):
 
 
 CHECKS = {
-    'C01': dict(legs=_c01, level='exploration', rule='seeded swarm of bounded worlds (all x0 placements, one-sided / mixed / huge bounds, scaling, noise, averaging, restarts, regression, growing, regularised, convex+bounds, forced base shifts) plus a value-fault leg; a run is non-trivial iff it performed >= 1 main-loop iteration; distinct = distinct path signatures',
+    'C01': dict(legs=_c01, level='exploration', rule='seeded swarm of bounded worlds (all x0 placements, one-sided / mixed / huge bounds, scaling, noise, averaging, restarts, regression, growing, regularised, convex+bounds, forced base shifts) plus a value-fault leg; a run is non-trivial iff it performed >= 1 main-loop iteration; distinct = distinct path signatures; linear-algebra fault enumeration (the j-th handled, feasible linear solve of the interpolation system fails, j = 1..J_ref of a reference run, alone and in pairs)',
                 assumptions=COMMON_ASSUME),
-    'C02': dict(legs=_c02, level='fault_enumeration', rule='per sampled world the budget cut is enumerated at k=1..nf_ref (thorough: all k; quick: all k <= npt+3, a stride, the last 5); plus swarm and value-fault legs; refinement of the (objfun, nsamples, log) history against a counter automaton; distinct = distinct path signatures',
+    'C02': dict(legs=_c02, level='fault_enumeration', rule='per sampled world the budget cut is enumerated at k=1..nf_ref (thorough: all k; quick: all k <= npt+3, a stride, the last 5); plus swarm and value-fault legs; refinement of the (objfun, nsamples, log) history against a counter automaton; distinct = distinct path signatures; linear-algebra fault enumeration (the j-th handled, feasible linear solve of the interpolation system fails, j = 1..J_ref of a reference run, alone and in pairs); target enumeration (small-objective exit at every record evaluation of a reference run, alone and right after a NaN/inf reply)',
                 assumptions=COMMON_ASSUME),
-    'C03': dict(legs=_c03, level='exploration', rule='cut-point enumeration + swarm + regularised + faulted legs; oracle at exit and once per iteration (probe) against the recorded calls; distinct = distinct path signatures', assumptions=COMMON_ASSUME),
-    'C04': dict(legs=_c04, level='exploration', rule='deterministic worlds only (no noise, nsamples==1) incl. NaN regions, convex sets, regulariser, single value faults, cut-point enumeration; oracle at exit, per run and per iteration; distinct = distinct path signatures', assumptions=COMMON_ASSUME),
-    'C07': dict(legs=_c07, level='fault_enumeration', rule='(a) argument-fault catalogue enumerated completely over 6 base worlds (one argument / parameter / contradiction replaced per call; per-key entries generated from the live ParameterList); (b) every exit route reached by fault-free swarms (general, cut-point, convex, regularised, growing) must give a well-formed result; (c) return within the deterministic step cap; distinct = distinct path signatures (for the catalogue: distinct entries)',
+    'C03': dict(legs=_c03, level='exploration', rule='cut-point enumeration + swarm + regularised + faulted legs; oracle at exit and once per iteration (probe) against the recorded calls; distinct = distinct path signatures; linear-algebra fault enumeration (the j-th handled, feasible linear solve of the interpolation system fails, j = 1..J_ref of a reference run, alone and in pairs); target enumeration (small-objective exit at every record evaluation of a reference run, alone and right after a NaN/inf reply)', assumptions=COMMON_ASSUME),
+    'C04': dict(legs=_c04, level='exploration', rule='deterministic worlds only (no noise, nsamples==1) incl. NaN regions, convex sets, regulariser, single value faults, cut-point enumeration; oracle at exit, per run and per iteration; distinct = distinct path signatures; value fault at every k followed by a budget cut at k+1, k+2; linear-algebra fault enumeration (the j-th handled, feasible linear solve of the interpolation system fails, j = 1..J_ref of a reference run, alone and in pairs); target enumeration (small-objective exit at every record evaluation of a reference run, alone and right after a NaN/inf reply)', assumptions=COMMON_ASSUME),
+    'C07': dict(legs=_c07, level='fault_enumeration', rule='(a) argument-fault catalogue enumerated completely over 6 base worlds (one argument / parameter / contradiction replaced per call; per-key entries generated from the live ParameterList); (b) every exit route reached by fault-free swarms (general, cut-point, convex, regularised, growing) must give a well-formed result; (c) return within the deterministic step cap; distinct = distinct path signatures (for the catalogue: distinct entries); linear-algebra fault enumeration (the j-th handled, feasible linear solve of the interpolation system fails, j = 1..J_ref of a reference run, alone and in pairs) incl. the growing phase',
                 assumptions=COMMON_ASSUME + ['the per-key type/range table of ParameterList.param_type is taken as the documented domain of user_params']),
-    'C08': dict(legs=_c08, level='fault_enumeration', rule='per sampled world a fault-free reference run, then every k=1..nf_ref x {nan,+inf,-inf,1e200} x {one,all components} + raise, then from-k-on faults; random multi-fault schedules; NaN-region worlds; a fault point counts only if the fault fired; distinct = distinct path signatures',
+    'C08': dict(legs=_c08, level='fault_enumeration', rule='per sampled world a fault-free reference run, then every k=1..nf_ref x {nan,+inf,-inf,1e200} x {one,all components} + raise (exception classes: the harness class, LinAlgError, ValueError, OverflowError, ...), then from-k-on faults; random multi-fault schedules; NaN-region worlds; a fault point counts only if the fault fired; distinct = distinct path signatures',
                 assumptions=COMMON_ASSUME + ['wrong-shaped residuals and exceptions from policy callbacks are outside the property and not injected']),
     'C09': dict(legs=_c09, level='exploration', rule='convex worlds (1-4 balls / half-spaces / boxes round a common interior point, with or without bounds, feasible / infeasible x0, restarts, value faults, budget cuts); wrapper round the alternating-projection routine as imported by each dfols module; every evaluated point must be a recorded output; distinct = distinct path signatures', assumptions=COMMON_ASSUME + ['the harness projector stubs are exact projections; sweeps = projector calls / p']),
     'C12': dict(legs=_c12, level='exploration', rule='in-situ assertion on every call the solver makes to the box trust-region routine during simulated (incl. fault-perturbed, forced-base-shift) runs; inputs the solver cannot produce (indefinite H, degenerate boxes) are NOT covered; distinct = distinct path signatures', assumptions=COMMON_ASSUME + ['class-B property: only inputs produced by simulated histories are asserted']),
     'C13': dict(legs=_c13, level='exploration', rule='in-situ assertions on every call to the geometry step (global maximum by a bisection oracle), the projected-gradient / S-FISTA / convex geometry solvers (norm bound) and the regularised trust-region step (predicted reduction) during simulated runs; distinct = distinct path signatures', assumptions=COMMON_ASSUME + ['class-B property: only inputs produced by simulated histories are asserted']),
     'C14': dict(legs=_c14, level='exploration', rule='(a) prefix of every bounded history with coordinate initialisation and nf >= npt, npt <= 2n+1, all x0 placements; (b) in-situ assertions on the random direction generators, which draw from the simulator-owned global RNG (random initialisation, growing, momentum steps, soft restart with increase_npt); distinct = distinct path signatures', assumptions=COMMON_ASSUME + ['class-B property for the generators: only argument patterns produced by simulated histories are asserted']),
     'C15': dict(legs=_c15, level='exploration', rule='in-situ assertion of the alternating-projection routine\'s own contract on every call made from dfols.model / solver / controller / trust_region in convex and regularised worlds (p = user sets + box (+ trust-region ball)); reference run to tol 1e-30 for a deterministic 1-in-20 sample of calls with tol <= 1e-10; distinct = distinct path signatures', assumptions=COMMON_ASSUME + ['class-B property: only calls made by simulated histories are asserted; optimality clause only for tol <= 1e-10']),
-    'C10': dict(legs=_c10, level='exploration', rule='cut-point enumeration + swarm + faulted legs with buggified tolerances/slow/auto-detect settings; history oracle coupling (flag,msg) to recorded facts; distinct = distinct path signatures', assumptions=COMMON_ASSUME),
-    'C11': dict(legs=_c11, level='exploration', rule='noise-free worlds without projections; independent least-squares fit to the recorded calls named by jacmin_eval_nums; cut-point enumeration + swarm (scaling in half of the bounded runs); distinct = distinct path signatures', assumptions=COMMON_ASSUME),
+    'C10': dict(legs=_c10, level='exploration', rule='cut-point enumeration + swarm + faulted legs with buggified tolerances/slow/auto-detect settings; history oracle coupling (flag,msg) to recorded facts; distinct = distinct path signatures; linear-algebra fault enumeration (the j-th handled, feasible linear solve of the interpolation system fails, j = 1..J_ref of a reference run, alone and in pairs); target enumeration (small-objective exit at every record evaluation of a reference run, alone and right after a NaN/inf reply)', assumptions=COMMON_ASSUME),
+    'C11': dict(legs=_c11, level='exploration', rule='noise-free worlds without projections; independent least-squares fit to the recorded calls named by jacmin_eval_nums; cut-point enumeration + swarm (scaling in half of the bounded runs); distinct = distinct path signatures; linear-algebra fault enumeration (the j-th handled, feasible linear solve of the interpolation system fails, j = 1..J_ref of a reference run, alone and in pairs)', assumptions=COMMON_ASSUME),
     'C16': dict(legs=_c16, level='exploration', rule='(a) Hypothesis RuleBasedStateMachine over a real Model (n<=6, m<=6, 2..2n+1 points, spreads 1e-4..1, base points up to 1e3): replace / grow / append / swap / base shift / refit / factorise-then-mutate; identities checked after every operation with tolerance 1e3*eps*cond*scale; one unit = one Hypothesis seed; (b) the same identities after every fit performed inside simulated solves (solver-made histories, forced base shifts); distinct = distinct operation lists of length >= 3 / distinct path signatures',
                 assumptions=COMMON_ASSUME + ['identities are asserted only while all stored data are finite and cond(interpolation matrix) < 1e8', 'Hypothesis 6.168 generates and shrinks the operation list; the replay file is the recorded op list executed without Hypothesis']),
     'C17': dict(legs=_c17, level='exploration', rule='Hypothesis RuleBasedStateMachine over a real Model against a shadow model (per slot: absolute point, list of samples, evaluation number; saved point), operations replace / resample / append / swap / base shift / save / final query, data from {random, exact ties, NaN, +inf, -inf} (data faults) and a clean-data configuration, with and without a regulariser; one unit = one Hypothesis seed; distinct = distinct operation lists of length >= 3',
                 assumptions=COMMON_ASSUME + ['no claim about exceptions once non-finite data are stored (only bookkeeping is claimed)', 'Hypothesis 6.168 generates and shrinks the operation list; the replay file is the recorded op list executed without Hypothesis']),
-    'C18': dict(legs=_c18, level='exploration', rule='every run has diagnostics on; time-series invariants over soln.diagnostic_info cross-checked with the harness iteration events; swarm + cuts + faulted + growing legs', assumptions=COMMON_ASSUME),
+    'C18': dict(legs=_c18, level='exploration', rule='every run has diagnostics on; time-series invariants over soln.diagnostic_info cross-checked with the harness iteration events; swarm + cuts + faulted + growing legs; long-march worlds (radius reaches the 1e10 cap); linear-algebra fault enumeration (the j-th handled, feasible linear solve of the interpolation system fails, j = 1..J_ref of a reference run, alone and in pairs)', assumptions=COMMON_ASSUME),
     'C19': dict(legs=_c19, level='exploration', rule='sessions: the same non-randomised call W repeated under different np.random seeds, with the environment drawing from the shared global RNG between solver draws, after an unrelated call and after a call that raised; behaviour digests of all W runs must be bit-identical; caller-side snapshots of all arguments compared after every call of every leg (incl. faulted and raising runs, integer-dtype x0/bounds); distinct = distinct path signatures of the W runs',
                 assumptions=COMMON_ASSUME + ['"randomised option" is read from the code: random initial directions, any growing configuration, restarts.increase_npt, momentum extra steps; convex worlds whose coordinate set needs the random repair path are detected (extra qr_rank calls) and not compared']),
-    'C20': dict(legs=_c20, level='exploration', rule='every result object with a solution produced by the swarm / faulted / convex / regularised legs is pushed through to_dict -> strict json -> from_dict -> str; plus field faults (see field_faults in coverage)', assumptions=COMMON_ASSUME),
+    'C20': dict(legs=_c20, level='exploration', rule='every result object with a solution produced by the swarm / faulted / convex / regularised legs is pushed through to_dict -> strict json -> from_dict -> str; plus field faults (see field_faults in coverage); linear-algebra fault enumeration (the j-th handled, feasible linear solve of the interpolation system fails, j = 1..J_ref of a reference run, alone and in pairs)', assumptions=COMMON_ASSUME),
     'census': dict(legs=_census, level='exploration', rule='all oracles on a general swarm (development aid, not registered)', report_all=True, no_minimise=True, spot_check=False),
 }
 
